@@ -69,7 +69,8 @@ ALT_TARGET = os.path.join(common.TARGET, "alt")
 
 def build_rtprops_alt(release=False):
     """the same harness against the library in another configuration: without its `std` feature,
-    with the `log` feature and a trace-level logger that formats every record"""
+    with the `log` feature and a trace-level logger that formats every record, built with the
+    release profile (optimised, debug assertions off)"""
     ok, out = common.cargo_build("rtprops", release=release, extra=["--no-default-features", "--features", "altcfg"], target_dir=ALT_TARGET)
     if not ok:
         raise Infra("rtprops (alternative configuration) does not build against the current tree:\n" + out[-4000:])
@@ -85,13 +86,15 @@ def rt(run):
     run.run_harness(b, timeout=7200)
     if run.prop != "C13":
         # (C13's subject, the integer coding of io::Error, only exists with the `std` feature)
-        b2 = build_rtprops_alt(release=(run.tier == "thorough"))
+        # always the release profile (debug assertions off): the default-configuration binary of
+        # the quick tier is a debug build, so both kinds of build are exercised on every change
+        b2 = build_rtprops_alt(release=True)
         run.tier_override = "quick"
         try:
             run.run_harness(b2, timeout=7200, label="altcfg-rtprops")
         finally:
             run.tier_override = None
-        run.assumptions.append("second pass over the quick-tier case set with the library built without its `std` feature and with `log` enabled at trace level")
+        run.assumptions.append("second pass over the quick-tier case set with the library built without its `std` feature, with `log` enabled at trace level, in the release profile (debug assertions off)")
     if run.tier == "thorough":
         fuzz_part(run, b)
 
